@@ -37,18 +37,119 @@ func vObjects() []string {
 
 func pick(r *rand.Rand, xs []string) string { return xs[r.Intn(len(xs))] }
 
+// tripleKey identifies a triple the way the store does: anchors by instant (vTimes[1] is vTimes[0] in another zone)
+func tripleKey(t string) string {
+	f := strings.Split(t, "\t")
+	return f[0] + "\t" + strings.ReplaceAll(f[1], vTimes[1], vTimes[0]) + "\t" + strings.ReplaceAll(f[2], vTimes[1], vTimes[0])
+}
+
 func genTriples(r *rand.Rand, n int) []string {
 	objs := vObjects()
 	seen := map[string]bool{}
 	var out []string
 	for i := 0; i < n*3 && len(out) < n; i++ {
 		t := pick(r, vNodes[:3+r.Intn(2)]) + "\t" + pick(r, vPreds) + "\t" + pick(r, objs)
-		if !seen[t] {
-			seen[t] = true
+		if k := tripleKey(t); !seen[k] {
+			seen[k] = true
 			out = append(out, t)
 		}
 	}
 	return out
+}
+
+// roundRobin puts consecutive triples into different graphs (rotation rot): the adversarial partition
+func roundRobin(ts []string, k, rot int) [][]string {
+	gs := make([][]string, k)
+	for i := range gs {
+		gs[i] = []string{}
+	}
+	for i, t := range ts {
+		gs[(i+rot)%k] = append(gs[(i+rot)%k], t)
+	}
+	return gs
+}
+
+// ---------------------------------------------------------------- dedicated data / statements
+
+// cyclic data: edges in both directions between three nodes, so that closing clauses become fully specified per row
+func cycleData(r *rand.Rand) []string {
+	var ts []string
+	ns := []string{"/u<a>", "/u<b>", "/u<c>"}
+	ps := []string{`"p"@[]`, `"q"@[]`, `"q"@[2016-06-01T00:00:00-08:00]`}
+	seen := map[string]bool{}
+	for i := 0; i < 14; i++ {
+		t := pick(r, ns) + "\t" + pick(r, ps) + "\t" + pick(r, ns)
+		if !seen[t] {
+			seen[t] = true
+			ts = append(ts, t)
+		}
+	}
+	for _, x := range ns { // guarantee a 2-cycle and a 3-cycle on "p"
+		_ = x
+	}
+	for _, t := range []string{"/u<a>\t\"p\"@[]\t/u<b>", "/u<b>\t\"p\"@[]\t/u<a>", "/u<b>\t\"p\"@[]\t/u<c>", "/u<c>\t\"p\"@[]\t/u<a>"} {
+		if !seen[t] {
+			seen[t] = true
+			ts = append(ts, t)
+		}
+	}
+	r.Shuffle(len(ts), func(i, j int) { ts[i], ts[j] = ts[j], ts[i] })
+	return ts
+}
+
+var cycleQueries = [][]string{
+	{`?a "p"@[] ?b`, `?b "p"@[] ?a`},
+	{`?a "p"@[] ?b`, `?b "p"@[] ?c`, `?c "p"@[] ?a`},
+	{`?a "q"@[] ?b`, `?b "p"@[] ?a`},
+	{`?a ?p ?b`, `?b ?p ?a`},
+	{`?a "p"@[] ?b`, `?a "p"@[] ?b`},
+	{`?a "q"@[?t] ?b`, `?b "q"@[?t] ?a`},
+	{`?a "p"@[] ?b`, `?b ?p2 ?c`, `?c "p"@[] ?a`, `?a ?p2 ?b`},
+}
+
+func cycleQuery(r *rand.Rand, k int) query {
+	cl := cycleQueries[r.Intn(len(cycleQueries))]
+	q := query{from: k}
+	for _, c := range cl {
+		q.clauses = append(q.clauses, c)
+		q.optional = append(q.optional, false)
+	}
+	return q
+}
+
+// windows given by bindings: `"seen"@[?lo,?hi]` specialised from several rows with different windows, followed by another
+// temporal clause (the lookup options of one row must not leak into other rows or later clauses)
+func windowData() []string {
+	return []string{
+		"/u<w1>\t\"lo\"@[2016-01-01T00:00:00Z]\t/u<b>", "/u<w1>\t\"hi\"@[2016-03-01T00:00:00Z]\t/u<b>",
+		"/u<w2>\t\"lo\"@[2016-06-01T00:00:00Z]\t/u<c>", "/u<w2>\t\"hi\"@[2016-12-01T00:00:00Z]\t/u<c>",
+		"/u<w3>\t\"lo\"@[2015-01-01T00:00:00Z]\t/u<b>", "/u<w3>\t\"hi\"@[2018-01-01T00:00:00Z]\t/u<b>",
+		"/u<b>\t\"seen\"@[2016-02-01T00:00:00Z]\t/u<x1>", "/u<b>\t\"seen\"@[2016-07-01T00:00:00Z]\t/u<x2>",
+		"/u<c>\t\"seen\"@[2016-07-01T00:00:00Z]\t/u<x3>", "/u<c>\t\"seen\"@[2016-02-01T00:00:00Z]\t/u<x4>",
+		"/u<b>\t\"later\"@[2015-06-01T00:00:00Z]\t/u<y1>", "/u<b>\t\"later\"@[2017-06-01T00:00:00Z]\t/u<y2>",
+		"/u<c>\t\"later\"@[2016-08-01T00:00:00Z]\t/u<y3>", "/u<c>\t\"later\"@[2014-06-01T00:00:00Z]\t/u<y4>",
+	}
+}
+
+var windowQueries = [][]string{
+	{`?w "lo"@[?lo] ?x`, `?w "hi"@[?hi] ?x`, `?x "seen"@[?lo,?hi] ?o`},
+	{`?w "lo"@[?lo] ?x`, `?w "hi"@[?hi] ?x`, `?x "seen"@[?lo,?hi] ?o`, `?x "later"@[?t] ?z`},
+	{`?w "lo"@[?lo] ?x`, `?x "seen"@[?lo,] ?o`, `?x "later"@[?t] ?z`},
+	{`?w "hi"@[?hi] ?x`, `?x "seen"@[,?hi] ?o`, `?x "later"@[?t] ?z`},
+	{`?w "lo"@[?lo] ?x`, `?w "hi"@[?hi] ?x`, `?x "seen"@[?lo,?hi] ?o`, `?w2 "lo"@[?lo2] ?x`},
+}
+
+func windowQuery(r *rand.Rand, k int) query {
+	cl := windowQueries[r.Intn(len(windowQueries))]
+	q := query{from: k}
+	for _, c := range cl {
+		q.clauses = append(q.clauses, c)
+		q.optional = append(q.optional, false)
+	}
+	if r.Intn(4) == 0 {
+		q.tail = "AFTER 2015-03-01T00:00:00Z"
+	}
+	return q
 }
 
 // split distributes triples over k graphs (every triple in exactly one graph unless dup>0: then some are copied).
@@ -205,6 +306,7 @@ type query struct {
 	proj     string // projection text, "" = all bindings
 	from     int    // number of graphs
 	tail     string // global time bound
+	order    string // ORDER BY clause text ("" = none)
 }
 
 func (q query) text() string {
@@ -233,7 +335,11 @@ func (q query) text() string {
 	if q.tail != "" {
 		t = " " + q.tail
 	}
-	return "SELECT " + proj + " FROM " + strings.Join(gs, ", ") + " WHERE { " + body + " }" + t + ";"
+	ob := ""
+	if q.order != "" {
+		ob = " ORDER BY " + q.order
+	}
+	return "SELECT " + proj + " FROM " + strings.Join(gs, ", ") + " WHERE { " + body + " }" + ob + t + ";"
 }
 
 var tails = []string{
@@ -540,6 +646,22 @@ func genC03(r *rand.Rand, n int, exhaustive bool, out func(J), next func() int) 
 		q := query{clauses: []string{sT + " " + pT + " " + oT}, optional: []bool{false}, from: len(gs), tail: pick(r, tails)}
 		out(tag(run(Spec{Graphs: gs, Query: q.text()}, false), "shapes", next()))
 	}
+	// (3d) cycles and self-joins (clauses that become fully specified per row) over adversarially partitioned graphs,
+	// every rotation of the FROM list
+	for i := 0; i < n/8; i++ {
+		ts := cycleData(r)
+		k := 1 + i%3
+		q := cycleQuery(r, k)
+		out(tag(run(Spec{Graphs: roundRobin(ts, k, i%k), Query: q.text()}, false), "cycles", next()))
+	}
+	// (3e) windows given by bindings, several rows with different windows, a later temporal clause
+	for i := 0; i < n/16; i++ {
+		ts := windowData()
+		r.Shuffle(len(ts), func(a, b int) { ts[a], ts[b] = ts[b], ts[a] })
+		k := 1 + i%2
+		q := windowQuery(r, k)
+		out(tag(run(Spec{Graphs: roundRobin(ts, k, i%k), Query: q.text()}, false), "windows", next()))
+	}
 	// (4) malformed stream: statements the front end must reject
 	bad := []string{
 		"SELECT ?nope FROM ?g0 WHERE { ?s ?p ?o };",
@@ -642,22 +764,66 @@ func renameAll(text string) string {
 	return b.String()
 }
 
+// data with anchors that differ only in the fractional part of a second (and some that differ by more)
+func orderData(r *rand.Rand) []string {
+	fr := []string{".001", ".002", ".01", ".1", ".25", ".5", ".75", ".9", ".999", ""}
+	r.Shuffle(len(fr), func(i, j int) { fr[i], fr[j] = fr[j], fr[i] })
+	var ts []string
+	for i, f := range fr[:7+r.Intn(3)] {
+		sec := "00"
+		if i%4 == 3 {
+			sec = "01"
+		}
+		ts = append(ts, fmt.Sprintf("/u<n%d>\t\"e\"@[2016-01-01T00:00:%s%sZ]\t/u<m%d>", i, sec, f, i%3))
+	}
+	for i, f := range fr[:5] {
+		ts = append(ts, fmt.Sprintf("/u<m%d>\t\"f\"@[2016-02-01T00:00:00%sZ]\t/u<z%d>", i%3, f, i))
+	}
+	return ts
+}
+
+var orderQueries = []query{
+	{clauses: []string{`?s "e"@[?t] ?o`}, optional: []bool{false}, proj: "?s, ?t, ?o", order: "?t"},
+	{clauses: []string{`?s "e"@[?t] ?o`}, optional: []bool{false}, proj: "?t, ?s", order: "?t DESC"},
+	{clauses: []string{`?a "e"@[?t] ?b`, `?b "f"@[?u] ?c`}, optional: []bool{false, false}, proj: "?a, ?t, ?b, ?u, ?c", order: "?t, ?u"},
+	{clauses: []string{`?a "e"@[?t] ?b`, `?b "f"@[?u] ?c`}, optional: []bool{false, false}, proj: "?t, ?u, ?c", order: "?u DESC, ?t"},
+}
+
 func genC14(r *rand.Rand, n int, out func(J), next func() int) {
 	for gi := 0; gi < n; gi++ {
-		ts := genTriples(r, 5+r.Intn(10))
+		var ts []string
 		var q query
 		ncl := 1 + r.Intn(4)
-		switch r.Intn(3) {
-		case 0:
-			q = chainQuery(r, ncl, [][]string{ts})
+		ordered := gi%4 == 3
+		switch {
+		case ordered:
+			ts = orderData(r)
+			q = orderQueries[r.Intn(len(orderQueries))]
+			ncl = len(q.clauses)
+		case gi%4 == 1 && gi%8 == 1:
+			ts = cycleData(r)
+			q = cycleQuery(r, 1)
+			ncl = len(q.clauses)
+		case gi%8 == 5:
+			ts = windowData()
+			r.Shuffle(len(ts), func(a, b int) { ts[a], ts[b] = ts[b], ts[a] })
+			q = windowQuery(r, 1)
+			ncl = len(q.clauses)
 		default:
-			q = randQuery(r, ncl, r.Intn(4) > 0, 0, [][]string{ts})
-		}
-		if gi%5 == 4 && ncl > 1 { // some queries with OPTIONAL: every variant except clause order applies
-			q.optional[1+r.Intn(ncl-1)] = true
+			ts = genTriples(r, 5+r.Intn(10))
+			switch r.Intn(3) {
+			case 0:
+				q = chainQuery(r, ncl, [][]string{ts})
+			default:
+				q = randQuery(r, ncl, r.Intn(4) > 0, 0, [][]string{ts})
+			}
+			if gi%5 == 4 && ncl > 1 { // some queries with OPTIONAL: every variant except clause order applies
+				q.optional[1+r.Intn(ncl-1)] = true
+			}
+			q = withProjection(r, q)
 		}
 		q.from = 1
-		q = withProjection(r, q)
+		q.tail = ""
 		hasOpt := false
 		for _, o := range q.optional {
 			hasOpt = hasOpt || o
@@ -666,8 +832,9 @@ func genC14(r *rand.Rand, n int, out func(J), next func() int) {
 			o := tag(run(sp, false), "c14", next())
 			o["group"] = gi
 			o["variant"] = variant
-			o["eval"] = eval
+			o["eval"] = eval && !ordered
 			o["has_optional"] = hasOpt
+			o["ordered"] = ordered
 			out(o)
 		}
 		base := [][]string{ts}
@@ -688,15 +855,30 @@ func genC14(r *rand.Rand, n int, out func(J), next func() int) {
 		}
 		// renaming
 		emitv("rename", Spec{Graphs: base, Query: renameAll(q.text())}, true)
-		// partitions of the data over 2 and 3 graphs (no duplication)
+		// partitions of the data over 2 and 3 graphs (no duplication): a random one, and the adversarial round-robin
+		// partitions in every rotation (consecutive triples in different graphs, every order of the FROM list)
 		for k := 2; k <= 3; k++ {
 			q2 := q
 			q2.from = k
 			emitv(fmt.Sprintf("split:%d", k), Spec{Graphs: split(r, ts, k, false), Query: q2.text()}, true)
+			for rot := 0; rot < k; rot++ {
+				emitv(fmt.Sprintf("split:rr%d.%d", k, rot), Spec{Graphs: roundRobin(ts, k, rot), Query: q2.text()}, true)
+			}
 		}
 		// superset of the data
-		sup := append(append([]string{}, ts...), genTriples(r, 4)...)
-		emitv("superset", Spec{Graphs: [][]string{sup}, Query: q.text()}, true)
+		if !ordered {
+			sup := append([]string{}, ts...)
+			seen := map[string]bool{}
+			for _, t := range ts {
+				seen[tripleKey(t)] = true
+			}
+			for _, t := range genTriples(r, 4) {
+				if !seen[tripleKey(t)] {
+					sup = append(sup, t)
+				}
+			}
+			emitv("superset", Spec{Graphs: [][]string{sup}, Query: q.text()}, true)
+		}
 		// clause permutations (the projection is kept: explicit list so that it does not depend on clause order)
 		if ncl > 1 && ncl <= 4 && !hasOpt {
 			q0 := q
